@@ -294,9 +294,12 @@ def _call_subflow(new_state: State, flow_state: FlowState) -> Optional[FlowState
     # Add any new subflow to the new state
     new_state.flow_states.append(subflow_state)
 
-    # Check if we have a next step from the subflow
-    subflow_config = new_state.flow_configs[subflow_state.flow_id]
-    _record_next_step(new_state, subflow_state, subflow_config)
+    # Check if we have a next step from the subflow. If the subflow was itself interrupted
+    # by a nested subflow, its head already points past the nested call and its next
+    # element must wait until the nested subflow finishes.
+    if subflow_state.status != FlowStatus.INTERRUPTED:
+        subflow_config = new_state.flow_configs[subflow_state.flow_id]
+        _record_next_step(new_state, subflow_state, subflow_config)
 
     return subflow_state
 
